@@ -8,6 +8,9 @@ Correspondence (model ≈ code):
   U  real `CanUnprotect.unprotect` (harness context, transparent AEAD, shims for
      cbor2/cryptography/filelock) vs Lean `unprotect` on arrival sequences of
      authentic / forged / echoing requests, initialised and uninitialised windows.
+Every arrival of U and M carries the OUTER code it is delivered under (not integrity protected: whoever re-sends a
+recorded message picks it): request-style FETCH/POST, the other request codes, 0.00, class 1, the response classes
+2-5, reserved class 6, signalling class 7 - for every window state incl. uninitialised.  Lean: `runWire`.
 Oracle (searches for a failing input once something differs, and always runs):
   at most one success per sequence number; forged arrivals leave persist() unchanged;
   uninitialised window accepts only with the issued echo; anything above all
@@ -26,14 +29,53 @@ RULE = ("restart: the real FilesystemSecurityContext over process lifetimes (kil
         "numbers around every partial-IV length boundary 2^8, 2^16, 2^24, 2^32 and the last number 2^40-1 "
         "(table: approach from below, cross, replay, jump from 0); M: the same context in both roles - protected "
         "responses (authentic / forged, with a partial IV of their own that is late / current / future, or none) "
-        "between the requests, boundary table enumerated in full. A case is non-trivial when at "
+        "between the requests, boundary table enumerated in full. U and M: every arrival is delivered under an OUTER "
+        "code (unauthenticated) - table: every code class boundary (0, 1, 2, 5, 31, 32, 63, 64, 191, 192, 223, 224, "
+        "255 and named codes) x window state (uninitialised with / without Echo recovery, empty, part-filled) x "
+        "authentic / forged x echoing or not, followed by unmodified replays, the genuine Echo exchange and fresh "
+        "numbers; a recorded request re-sent under a response code, a recorded response re-sent under a request "
+        "code; random codes on 15 % of the arrivals. Window sizes 0 and below: refused when configured, or a working "
+        "window. A case is non-trivial when at "
         "least one number is accepted and one refused; distinct by full op sequence.")
 TRUSTED = ["harness shims for cbor2/cryptography/filelock and the transparent AEAD (harness/oscore_util.py)"]
 ASSUMPTIONS = ["AEAD decryption of a forged message fails (modelled as the `authentic` flag)",
                "the peer is honest about its own numbers: one sender sequence number, one request",
-               "window size >= 1 (size 0 trips an assertion in strike_out; not a supported configuration)"]
+               "a message the peer made as a request does not verify as the response to a request of this process "
+               "and vice versa (the AAD differs; the transparent AEAD of the harness checks the AAD)"]
 
 SIZES = [1, 2, 3, 8, 31, 32, 33, 64]
+
+# outer codes: what RFC 7252 / 8323 / 8613 say about the code byte, not what aiocoap does with it
+POST, FETCH = 2, 5
+CODE_TABLE = [0,                                   # 0.00 Empty
+              1, 2, 3, 4, 5, 6, 7, 31,             # request class 0.01-0.31 (POST, FETCH: what an OSCORE sender uses)
+              32, 33, 63,                          # class 1 (reserved)
+              64, 65, 68, 69, 95, 96, 128, 129, 132, 159, 160, 191,     # response classes 2-5
+              192, 200, 223,                       # class 6 (reserved)
+              224, 225, 226, 227, 229, 255]        # class 7 (signalling)
+
+
+def code_class(code):
+    """how a receiver has to take a message under this outer code: 'style' - a request as OSCORE senders make
+    them (RFC 8613 4.2: POST or FETCH); 'response' - class 2-5; 'request-other' - another request code; 'other' -
+    neither request nor response (empty, reserved, signalling)"""
+    if code is None or code in (POST, FETCH):
+        return "style"
+    if 64 <= code < 192:
+        return "response"
+    if 1 <= code < 32:
+        return "request-other"
+    return "other"
+
+
+def code_name(code):
+    return "%d.%02d" % (code >> 5, code & 31)
+
+
+def arr(a):
+    """(seq, authentic, echo[, code]) -> 4-tuple, code None = as the peer sent it"""
+    a = tuple(a)
+    return a if len(a) == 4 else a + (None,)
 
 
 def gen_number(rng, index, size, top):
@@ -86,8 +128,13 @@ def oracle_window(size, index, bitfield, ops, toks):
 
 
 def run_window(oscore, size, index, bitfield, ops):
-    w = oscore.ReplayWindow(size, lambda: None)
-    w.initialize_from_persisted({"index": index, "bitfield": bitfield})
+    try:
+        w = oscore.ReplayWindow(size, lambda: None)
+        w.initialize_from_persisted({"index": index, "bitfield": bitfield})
+    except ValueError:
+        if size < 1:
+            return "size-refused"                    # a window without slots cannot be configured / loaded
+        raise
     out = []
     for op in ops:
         n = int(op[1:])
@@ -129,6 +176,11 @@ def window_cases(env, rep):
                 ops = [f"v{x}" for x in probe if x >= 0] + [f"s{x}" for x in probe if x >= 0] + \
                       [f"v{x}" for x in probe if x >= 0]
                 cases.append((size, start, bitfield, ops))
+    # a window without slots: either it cannot be configured, or every rule of the window holds for it
+    for size in (0, -1, -32):
+        for start in (0, 5):
+            cases.append((size, start, 0, [f"v{start}", f"s{start}", f"v{start}", f"s{start}", f"s{start + 1}",
+                                           f"v{start + 1}", f"s{start + 3}", f"s{start + 2}"]))
     for _ in range(n):
         size = rng.choice(SIZES)
         index = rng.choice([0, 0, 3, 1000, (1 << 32) - 5, (1 << 40) - 70])
@@ -163,8 +215,9 @@ def make_ctx_pair(oscore, HarnessContext, size):
     return client, server
 
 
-def protected_request(aiocoap, client, seq, echo, forge):
-    """A protected GET with sender sequence number `seq`, serialised and re-parsed."""
+def protected_request(aiocoap, client, seq, echo, forge, code=None):
+    """A protected GET with sender sequence number `seq`, serialised and re-parsed; `code`: the outer code it is
+    delivered under (rewritten after the peer protected it; None: left as the peer set it)"""
     from aiocoap import Message, GET
     msg = Message(code=GET, uri="coap://example.org/x")
     if echo is not None:
@@ -178,35 +231,56 @@ def protected_request(aiocoap, client, seq, echo, forge):
     prot.mtype = aiocoap.CON
     wire = prot.encode()
     inc = Message.decode(wire)
+    if code is not None:
+        inc.code = aiocoap.numbers.codes.Code(code)
     return inc
 
 
+def classify_exception(oscore, e):
+    if isinstance(e, oscore.ReplayErrorWithEcho):
+        return "E"
+    if isinstance(e, oscore.ReplayError):
+        return "R"
+    if isinstance(e, oscore.ProtectionInvalid):
+        return "P"
+    if type(e) is ValueError:
+        return "V"                                   # CodeStyle.from_request: outer code neither FETCH nor POST
+    return "X<" + type(e).__name__ + ">"             # e.g. the AssertionError of strike_out
+
+
 def run_unprotect(aiocoap, oscore, HarnessContext, size, win, echo_recovery, arrivals):
-    client, server = make_ctx_pair(oscore, HarnessContext, size)
-    w = oscore.ReplayWindow(size, lambda: None)
-    if win is not None:
-        w.initialize_from_persisted({"index": win[0], "bitfield": win[1]})
+    client, server = make_ctx_pair(oscore, HarnessContext, 32 if size < 1 else size)
+    try:
+        w = oscore.ReplayWindow(size, lambda: None)
+        if win is not None:
+            w.initialize_from_persisted({"index": win[0], "bitfield": win[1]})
+    except ValueError:
+        if size < 1:
+            return "size-refused", []                # a window without slots cannot be configured: nothing to judge
+        raise
     server.recipient_replay_window = w
     server.echo_recovery = None if echo_recovery is None else echo_recovery.to_bytes(8, "big")
     out = []
     log = []
-    for (seq, auth, echo) in arrivals:
+    peer = None
+    for (seq, auth, echo, code) in map(arr, arrivals):
         before = w.persist() if w.is_initialized() else None
         inc = protected_request(aiocoap, client, seq,
-                                None if echo is None else echo.to_bytes(8, "big"), not auth)
+                                None if echo is None else echo.to_bytes(8, "big"), not auth, code)
         try:
-            server.unprotect(inc)
+            if code_class(code) == "response":
+                # a caller hands a message under a response code to unprotect together with the identifiers of
+                # the request it claims to answer: a request of this context that the peer has seen
+                if peer is None:
+                    peer = Peer(aiocoap, oscore, client, server)
+                server.unprotect(inc, peer.request_id_local)
+            else:
+                server.unprotect(inc)
             o = "A"
-        except oscore.ReplayErrorWithEcho:
-            o = "E"
-        except oscore.ReplayError:
-            o = "R"
-        except oscore.ProtectionInvalid:
-            o = "P"
-        except Exception as e:                       # e.g. the AssertionError of strike_out
-            o = "X<" + type(e).__name__ + ">"
+        except Exception as e:
+            o = classify_exception(oscore, e)
         after = w.persist() if w.is_initialized() else None
-        log.append((seq, auth, echo, o, before, after))
+        log.append((seq, auth, echo, code, o, before, after))
         out.append(o)
     p = w.persist() if w.is_initialized() else None
     fin = "u" if p is None else f"i:{p['index']}:{p['bitfield']}"
@@ -231,7 +305,7 @@ class Peer:
         inc = Message.decode(prot.encode())
         _, self.request_id_peer = self.client.unprotect(inc)
 
-    def response(self, seq, forge):
+    def response(self, seq, forge, code=None):
         from aiocoap import Message, CONTENT
         msg = Message(code=CONTENT, payload=b"r")
         rid = self.request_id_peer
@@ -244,12 +318,25 @@ class Peer:
         if forge:
             prot.payload = prot.payload[:-1] + bytes([prot.payload[-1] ^ 0x01])
         prot.mid, prot.mtype, prot.token = 3, self.aiocoap.NON, b""
-        return Message.decode(prot.encode())
+        inc = Message.decode(prot.encode())
+        if code is not None:
+            inc.code = self.aiocoap.numbers.codes.Code(code)
+        return inc
+
+
+def msg(m):
+    """("q", seq, authentic, echo[, code]) / ("p", seq|None, authentic[, code]) -> with the code slot filled"""
+    m = tuple(m)
+    if m[0] == "q":
+        return m if len(m) == 5 else m + (None,)
+    return m if len(m) == 4 else m + (None,)
 
 
 def run_mixed(aiocoap, oscore, HarnessContext, size, win, echo_recovery, msgs):
-    """msgs: ("q", seq, authentic, echo) requests and ("p", seq|None, authentic) responses, through the real
-    unprotect of ONE context used in both roles"""
+    """msgs: ("q", seq, authentic, echo[, code]) messages the peer made as requests and ("p", seq|None,
+    authentic[, code]) messages it made as responses to a request of this context, each delivered under the outer
+    `code` (None: as the peer set it), through the real unprotect of ONE context used in both roles.  Under a
+    response code the caller passes the identifiers of the request of this context, otherwise none."""
     client, server = make_ctx_pair(oscore, HarnessContext, size)
     peer = Peer(aiocoap, oscore, client, server)
     w = oscore.ReplayWindow(size, lambda: None)
@@ -258,24 +345,25 @@ def run_mixed(aiocoap, oscore, HarnessContext, size, win, echo_recovery, msgs):
     server.recipient_replay_window = w
     server.echo_recovery = None if echo_recovery is None else echo_recovery.to_bytes(8, "big")
     out, log = [], []
-    for m in msgs:
+    for m in map(msg, msgs):
         before = w.persist() if w.is_initialized() else None
         try:
             if m[0] == "q":
-                _, seq, auth, echo = m
+                _, seq, auth, echo, code = m
                 inc = protected_request(aiocoap, client, seq, None if echo is None else echo.to_bytes(8, "big"),
-                                        not auth)
-                server.unprotect(inc)
+                                        not auth, code)
+                as_response = code_class(code) == "response"
             else:
-                _, seq, auth = m
-                server.unprotect(peer.response(seq, not auth), peer.request_id_local)
+                _, seq, auth, code = m
+                inc = peer.response(seq, not auth, code)
+                as_response = code is None or code_class(code) == "response"
+            if as_response:
+                server.unprotect(inc, peer.request_id_local)
+            else:
+                server.unprotect(inc)
             o = "A"
-        except oscore.ReplayErrorWithEcho:
-            o = "E"
-        except oscore.ReplayError:
-            o = "R"
-        except oscore.ProtectionInvalid:
-            o = "P"
+        except Exception as e:
+            o = classify_exception(oscore, e)
         after = w.persist() if w.is_initialized() else None
         log.append((m, o, before, after))
         out.append(o)
@@ -285,14 +373,22 @@ def run_mixed(aiocoap, oscore, HarnessContext, size, win, echo_recovery, msgs):
 
 
 def oracle_mixed(size, win, echo_recovery, log):
-    """the property read over mixed traffic: responses never make a request acceptable twice, never touch an
-    initialised window; forged messages change nothing"""
+    """the property read over mixed traffic under arbitrary outer codes: responses never make a request acceptable
+    twice, never touch an initialised window; forged messages change nothing; what the peer made as a request is
+    accepted only as a request (and once), what it made as a response only as a response; a lost window is
+    initialised only by a message that proves freshness"""
     accepted = []
-    initialised = win is not None
+    initialised = win is not None                 # the oracle's own account of "a fresh exchange has happened"
     for (m, o, before, after) in log:
+        if o.startswith("X"):
+            return f"unprotect of {m[0]} message {m[1]} raised {o[2:-1]} instead of a protection error"
         if m[0] == "q":
-            _, seq, auth, echo = m
+            _, seq, auth, echo, code = m
+            cls = code_class(code)
+            under = "" if code is None else f" under outer code {code_name(code)}"
             if o == "A":
+                if cls == "response":
+                    return f"request {seq} of the peer was accepted as a response{under}"
                 if seq in accepted:
                     return f"sequence number {seq} accepted twice"
                 if not auth:
@@ -303,10 +399,29 @@ def oracle_mixed(size, win, echo_recovery, log):
                     return f"number {seq} accepted although it fell out of the window"
                 accepted.append(seq)
                 initialised = True
-            elif not auth and before != after:
-                return f"forged request {seq} changed the replay window {before} -> {after}"
+            else:
+                if o == "V" and cls in ("style", "response"):
+                    return f"unprotect of request {seq}{under} raised ValueError"
+                if before is None and after is not None:
+                    return (f"request {seq}{under} was refused ({o}) but initialised the lost replay window "
+                            f"to {after} without a fresh Echo exchange")
+                if before != after:
+                    return (f"{'forged' if not auth else 'refused'} request {seq}{under} changed the replay window "
+                            f"{before} -> {after}")
         else:
-            _, seq, auth = m
+            _, seq, auth, code = m
+            cls = "response" if code is None else code_class(code)
+            under = "" if code is None else f" under outer code {code_name(code)}"
+            if cls != "response":
+                # a recorded response delivered as a request: never acceptable, never changes anything
+                if o == "A":
+                    return f"a response (sequence number {seq}) of the peer was accepted as a request{under}"
+                if before != after:
+                    return (f"a response (sequence number {seq}) delivered{under} changed the replay window "
+                            f"{before} -> {after}")
+                continue
+            if o == "V":
+                return f"unprotect of a response{under} raised ValueError"
             if not auth and (o != "P" or before != after):
                 return f"forged response (sequence number {seq}) gave {o}, window {before} -> {after}"
             if auth and o != "A":
@@ -333,6 +448,20 @@ def mixed_cases(env):
                     msgs = first + [("p", rseq, auth)] + [("q", n, True, None) for n in (5, 6, 7, 8)]
                     cases.append((size, start, 7, msgs))
                     cases.append((size, start, 7, [("p", rseq, auth)] + msgs))
+    # outer codes: a recorded RESPONSE (numbered or not, authentic or forged) re-sent under every non-response code,
+    # a recorded REQUEST re-sent under every response code, for every window state; then replays and a fresh number
+    for size in (1, 32):
+        for (start, er) in (((0, 0), None), ((0, 0), 7), (None, 7), (None, None), ((3, 0b101), 7)):
+            for code in CODE_TABLE:
+                for auth in (True, False):
+                    first = []
+                    if code_class(code) == "response":
+                        odd = [("q", 6, auth, None, code), ("q", 6, auth, 7, code)]
+                    else:
+                        odd = [("p", 6, auth, code), ("p", None, auth, code), ("p", 2, auth, code)]
+                    tail = [("q", 6, True, None), ("q", 6, True, 7), ("q", 6, True, None), ("p", 9, True),
+                            ("q", 7, True, None)]
+                    cases.append((size, start, er, first + odd + tail))
     for _ in range(env.scale(250, 6000)):
         size = rng.choice([1, 2, 8, 32, 32, 64])
         r = rng.random()
@@ -346,7 +475,10 @@ def mixed_cases(env):
             if rng.random() < 0.3:
                 k = rng.random()
                 seq = None if k < 0.25 else (rng.choice(reqs)[1] if reqs and k < 0.6 else gen_number(rng, idx, size, top))
-                msgs.append(("p", seq, rng.random() < 0.8))
+                if rng.random() < 0.15:
+                    msgs.append(("p", seq, rng.random() < 0.8, gen_code(rng)))
+                else:
+                    msgs.append(("p", seq, rng.random() < 0.8))
                 continue
             if reqs and rng.random() < 0.3:
                 seq = rng.choice(reqs)[1]
@@ -356,9 +488,11 @@ def mixed_cases(env):
             e = rng.random()
             echo = 7 if e < 0.25 else (8 if e < 0.32 else None)
             m = ("q", seq, auth, echo)
+            if rng.random() < 0.15:
+                m = m + (gen_code(rng),)
             msgs.append(m)
             reqs.append(m)
-            if auth:
+            if auth and code_class(msg(m)[4]) == "style":
                 if seq >= idx + size:
                     idx = seq - size + 1
                 top = max(top, seq)
@@ -370,25 +504,39 @@ def m_line(size, win, echo_recovery, msgs):
     w = "u" if win is None else f"i:{win[0]}:{win[1]}"
     e = "-" if echo_recovery is None else str(echo_recovery)
     parts = []
-    for m in msgs:
+    for m in map(msg, msgs):
+        code = "" if m[-1] is None else f":{m[-1]}"
         if m[0] == "q":
-            parts.append(f"q:{m[1]}:{1 if m[2] else 0}:{'-' if m[3] is None else m[3]}")
+            parts.append(f"q:{m[1]}:{1 if m[2] else 0}:{'-' if m[3] is None else m[3]}{code}")
         else:
-            parts.append(f"p:{'-' if m[1] is None else m[1]}:{1 if m[2] else 0}")
+            parts.append(f"p:{'-' if m[1] is None else m[1]}:{1 if m[2] else 0}{code}")
     return f"C12 M {size} {w} {e} " + " ".join(parts)
+
+
+def gen_code(rng):
+    r = rng.random()
+    if r < 0.6:
+        return rng.choice(CODE_TABLE)
+    return rng.randrange(256)
 
 
 def oracle_unprotect(size, win, echo_recovery, log):
     """Direct reading of the property over what the implementation did.  An initialised start state (index,
     bitfield) records numbers as seen - below index, or bit set, at whatever position: the state may have been
-    persisted by a larger window - and those count as accepted before."""
+    persisted by a larger window - and those count as accepted before.  Every arrival is a message the peer made
+    as a request, delivered under an outer code that whoever delivers it chose: the code decides nothing about
+    freshness or authenticity."""
     accepted = []
-    initialised = win is not None
+    initialised = win is not None                 # the oracle's own account of "a fresh exchange has happened"
     pre_index = win[0] if win else 0
     pre = recorded(*win) if win else set()
     pre_top = max(pre) if pre else None
-    for (seq, auth, echo, o, before, after) in log:
+    for (seq, auth, echo, code, o, before, after) in log:
+        cls = code_class(code)
+        under = "" if code is None else f" under outer code {code_name(code)}"
         if o == "A":
+            if cls == "response":
+                return f"request {seq} of the peer was accepted as a response{under}"
             if seq in accepted:
                 return f"sequence number {seq} accepted twice"
             if win is not None and (seq < pre_index or seq in pre):
@@ -403,17 +551,22 @@ def oracle_unprotect(size, win, echo_recovery, log):
             accepted.append(seq)
             initialised = True
         else:
+            if before is None and after is not None:
+                return (f"request {seq}{under} was refused ({o}) but initialised the lost replay window to {after} "
+                        f"without a fresh Echo exchange")
             if not auth and before != after:
                 return f"forged message {seq} changed the replay window {before} -> {after}"
             if o.startswith("X"):
                 return f"unprotect of request {seq} raised {o[2:-1]} instead of a protection error"
-            if auth and initialised and all(a < seq for a in accepted) and seq >= pre_index and \
+            if o == "V" and cls in ("style", "response"):
+                return f"unprotect of request {seq}{under} raised ValueError"
+            if cls == "style" and auth and initialised and all(a < seq for a in accepted) and seq >= pre_index and \
                     (pre_top is None or seq > pre_top):
                 return f"authentic number {seq} above everything seen was refused ({o})"
-            if auth and o == "P":
+            if auth and o == "P" and cls != "response":
                 return f"authentic message {seq} failed decryption"
             if before != after:
-                return f"refused message {seq} changed the replay window {before} -> {after}"
+                return f"refused message {seq}{under} changed the replay window {before} -> {after}"
     return ""
 
 
@@ -446,6 +599,37 @@ def unprotect_boundary_cases():
                                                      (top - 1, True, None), (top + size + 3, True, None)]
             cases.append((size, (index, bitfield), None, arr))
             cases.append((size, (index, bitfield), 7, [(probe[-1], False, None)] + arr))
+    cases += outer_code_cases()
+    # a window without slots (size 0 and below): either it cannot be configured, or it works as a window
+    for size in (0, -1, -32):
+        for (win, er) in (((0, 0), None), ((0, 0), 7), (None, 7)):
+            cases.append((size, win, er, [(0, True, 7), (0, True, None), (1, True, None), (1, True, None),
+                                          (5, False, None), (5, True, None), (2, True, None)]))
+    return cases
+
+
+def outer_code_cases():
+    """the outer code as a dimension of arrivals: every code of CODE_TABLE x window state (lost with / without Echo
+    recovery, empty, part-filled) x authentic / forged x echoing or not.  The message under the odd code comes first
+    (recorded request n), then unmodified recorded requests above and at n, the genuine Echo exchange, the odd one
+    again, and fresh numbers."""
+    cases = []
+    n = 5
+    for size in (1, 32):
+        for (win, er) in ((None, 7), (None, None), ((0, 0), None), ((0, 0), 7), ((3, 0b101), 7)):
+            for code in CODE_TABLE:
+                for auth in (True, False):
+                    for echo in (None, 7):
+                        cases.append((size, win, er,
+                                      [(n, auth, echo, code), (n + 1, True, None), (n, True, None),
+                                       (n + 1, True, None), (n + 2, True, 7), (n + 2, True, 7), (n, True, echo, code),
+                                       (n + 1, True, None, code), (n + 3, True, None), (n, True, None)]))
+    # the state-loss scenario itself: requests 0..4 were accepted before the window was lost; 2 comes back under
+    # every code, then 3 and 4 as recorded, then the genuine request 5 with its Echo round trip, then all again
+    for code in CODE_TABLE:
+        cases.append((32, None, 7, [(2, True, None, code), (3, True, None), (4, True, None), (5, True, None),
+                                    (5, True, 7), (0, True, None), (1, True, None), (2, True, None),
+                                    (3, True, None), (4, True, None), (5, True, 7), (6, True, None)]))
     return cases
 
 
@@ -486,8 +670,9 @@ def unprotect_cases(env):
             auth = rng.random() < 0.75
             e = rng.random()
             echo = 7 if e < 0.25 else (8 if e < 0.35 else None)
-            arrivals.append((seq, auth, echo))
-            if auth:
+            code = gen_code(rng) if rng.random() < 0.15 else None
+            arrivals.append((seq, auth, echo) if code is None else (seq, auth, echo, code))
+            if auth and code_class(code) == "style":
                 if seq >= idx + size:
                     idx = seq - size + 1
                 top = max(top, seq)
@@ -498,7 +683,8 @@ def unprotect_cases(env):
 def u_line(size, win, echo_recovery, arrivals):
     w = "u" if win is None else f"i:{win[0]}:{win[1]}"
     e = "-" if echo_recovery is None else str(echo_recovery)
-    ar = " ".join(f"{s}:{1 if a else 0}:{'-' if ec is None else ec}" for s, a, ec in arrivals)
+    ar = " ".join(f"{s}:{1 if a else 0}:{'-' if ec is None else ec}" + ("" if c is None else f":{c}")
+                  for s, a, ec, c in map(arr, arrivals))
     return f"C12 U {size} {w} {e} {ar}"
 
 
@@ -510,54 +696,62 @@ def run(env, rep):
 
     # --- W: the window itself
     cases = [tuple(c["w"]) for _, c in load_corpus("C12") if "w" in c] + window_cases(env, rep)
-    lines, impl = [], []
+    lines, impl, compared = [], [], []
     for (size, index, bitfield, ops) in cases:
-        lines.append(f"C12 W {size} {index} {bitfield} " + " ".join(ops))
         try:
             r = run_window(oscore, size, index, bitfield, ops)
         except Exception as e:                       # AssertionError etc. are observations
             r = f"exception:{type(e).__name__}"
-        impl.append(r)
+        case = {"kind": "W", "size": size, "index": index, "bitfield": bitfield, "ops": ops}
         toks = r.split(" |")[0].split()
         nontriv = ("ok" in toks) and ("err" in toks or "0" in toks)
-        rep.case({"kind": "W", "size": size, "index": index, "bitfield": bitfield, "ops": ops},
-                 nontrivial=nontriv, sample_every=5000)
+        rep.case(case, nontrivial=nontriv, sample_every=5000)
         rep.count("W:size=%d" % size)
         for t in toks:
             rep.count("W:result=" + t)
-        if not r.startswith("exception:"):
+        if r == "size-refused":
+            v, key = "", None
+        elif not r.startswith("exception:"):
             v, key = oracle_window(size, index, bitfield, ops, toks)
         else:
             v, key = (f"ReplayWindow raised {r[10:]} (start state index {index}, bitfield {bitfield:#x}, size {size})",
                       "window-raises:" + r[10:])
         if v:
-            rep.oracle_fail({"kind": "W", "size": size, "index": index, "bitfield": bitfield, "ops": ops}, v, key=key)
-        if bitfield >> size:
+            rep.oracle_fail(case, v, key=key)
+        if size >= 1 and bitfield >> size:
             rep.count("W:start=persisted-by-larger-window")
-    compare(env, rep, cases, lines, impl, what="ReplayWindow")
+        if size >= 1:                                # the model starts at one slot; below: judged by the oracle only
+            compared.append((size, index, bitfield, ops))
+            lines.append(f"C12 W {size} {index} {bitfield} " + " ".join(ops))
+            impl.append(r)
+    compare(env, rep, compared, lines, impl, what="ReplayWindow")
 
     # --- U: unprotect control flow
     ucases = [tuple(c["u"]) for _, c in load_corpus("C12") if "u" in c] + unprotect_cases(env)
-    lines, impl = [], []
+    lines, impl, compared = [], [], []
     for (size, win, er, arrivals) in ucases:
         win = tuple(win) if win is not None else None
         arrivals = [tuple(a) for a in arrivals]
-        lines.append(u_line(size, win, er, arrivals))
         r, log = run_unprotect(aiocoap, oscore, HarnessContext, size, win, er, arrivals)
-        impl.append(r)
-        outs = r.split(" |")[0]
+        outs = [x[4] for x in log]
         case = {"kind": "U", "size": size, "win": win, "echo_recovery": er, "arrivals": arrivals}
         rep.case(case, nontrivial=("A" in outs and len(set(outs)) > 1), sample_every=1000)
-        for ch in [x[3] for x in log]:
+        for ch in outs:
             rep.count("U:outcome=" + ch)
-        rep.count("U:start=" + ("uninitialised" if win is None else
+        rep.count("U:start=" + ("no-slots" if size < 1 else "uninitialised" if win is None else
                                 "persisted-by-larger-window" if win[1] >> size else "initialised"))
-        for (seq, _a, _e) in arrivals:
+        for (seq, _a, _e, code) in map(arr, arrivals):
             rep.count("U:pivlen=%d" % max(1, (seq.bit_length() + 7) // 8))
+            rep.count("U:outer-code=" + ("as-sent" if code is None else code_class(code)) +
+                      ("/window-lost" if win is None else ""))
         v = oracle_unprotect(size, win, er, log)
         if v:
             rep.oracle_fail(case, v, key="unprotect:" + v.split(" ")[0] + ":" + v.split(" ")[-1])
-    compare(env, rep, ucases, lines, impl, what="unprotect")
+        if size >= 1:
+            compared.append(case)
+            lines.append(u_line(size, win, er, arrivals))
+            impl.append(r)
+    compare(env, rep, compared, lines, impl, what="unprotect")
 
     # --- M: one context in both roles: protected responses between the protected requests
     mcases = [(c["m"][0], c["m"][1], c["m"][2], c["m"][3]) for _, c in load_corpus("C12") if "m" in c] + mixed_cases(env)
@@ -572,8 +766,9 @@ def run(env, rep):
         case = {"kind": "M", "size": size, "win": win, "echo_recovery": er, "msgs": msgs}
         rep.case(case, nontrivial=("A" in outs and len(set(outs)) > 1 and any(m[0] == "p" for m in msgs)),
                  sample_every=1000)
-        for m, ch in zip(msgs, outs):
-            rep.count(("M:request=" if m[0] == "q" else "M:response=") + ch)
+        for (m, ch, _b, _a) in log:
+            rep.count(("M:request=" if m[0] == "q" else "M:response=") + ch +
+                      ("" if m[-1] is None else "/outer-code=" + code_class(m[-1])))
         v = oracle_mixed(size, win, er, log)
         if v:
             rep.oracle_fail(case, v, key="mixed:" + v.split(" ")[0] + ":" + v.split(" ")[-1])
@@ -607,6 +802,13 @@ def restart_cases(env):
             cases.append({"events": ["L7"] + first + ["S", f"W{new}", "L8"] + again +
                           ["R21:1:-", "R21:1:-", "R19:1:-", "R60:1:-", "R15:1:-", "S", "L9"] + again[:4],
                           "window": old})
+    # a `window` setting without slots (0 and below), from the start or edited in between two orderly runs: either the
+    # context refuses to load, or what loads is a working window
+    for w in (0, -1, -32):
+        cases.append({"events": ["L7", "R0:1:-", "R1:1:-", "R0:1:-", "R2:1:-", "S", "L8", "R1:1:-", "R3:1:-"],
+                      "window": w})
+        cases.append({"events": ["L7", "R0:1:-", "R1:1:-", "S", f"W{w}", "L8", "R1:1:-", "R2:1:-", "R2:1:-", "S",
+                                 "L9", "R2:1:-", "R3:1:-"]})
     for _ in range(env.scale(60, 1500)):
         # an honest peer never uses a sequence number for two different requests: a replay is
         # the identical datagram (same inner Echo option); new requests take new numbers
@@ -669,11 +871,45 @@ def oracle_restart(log):
     return ""
 
 
+def no_slots(case):
+    """the history configures a replay window of size 0 or below at some point"""
+    sizes = [case.get("window")] + [int(e[1:]) for e in case["events"] if e[0] == "W"]
+    return any(w is not None and w < 1 for w in sizes)
+
+
+def run_restart(runner, case):
+    """-> log, or None when the context refused to load a `window` setting without slots (nothing is accepted, nothing
+    is marked: nothing to judge)"""
+    import gc
+    import sys
+    if not no_slots(case):
+        return runner.run(case)[1]
+    # FilesystemSecurityContext.__init__ raising LoadError leaves an object whose __del__ trips over the attributes
+    # _load never set ("Exception ignored in ..." on stderr when it is collected): not this property's business
+    hook = sys.unraisablehook
+    sys.unraisablehook = lambda unraisable: None
+    try:
+        try:
+            return runner.run(case)[1]
+        except runner.oscore.FilesystemSecurityContext.LoadError:
+            return None
+    finally:
+        gc.collect()
+        sys.unraisablehook = hook
+
+
 def run_restarts(env, rep):
     from props import C13 as c13
     runner = c13.Runner(env)
     for case in [c["restart"] for _, c in load_corpus("C12") if "restart" in c] + restart_cases(env):
-        tokens, log = runner.run(case)
+        log = run_restart(runner, case)
+        if log is None:
+            rep.case({"kind": "restart", "events": case["events"], "window": case.get("window")}, nontrivial=False,
+                     sample_every=500)
+            rep.count("restart:window-without-slots=load-refused")
+            continue
+        if no_slots(case):
+            rep.count("restart:window-without-slots=loaded")
         outs = "".join(str(o.get("res", ""))[:1] for o in log if o["ev"] == "R")
         pub = {"kind": "restart", "events": case["events"], "window": case.get("window")}
         rep.case(pub, nontrivial=("A" in outs and len(set(outs)) > 1), sample_every=500)
@@ -687,8 +923,8 @@ def run_restarts(env, rep):
 def replay(env, case):
     if case.get("kind") == "restart":
         from props import C13 as c13
-        tokens, log = c13.Runner(env).run({"events": case["events"], "window": case.get("window")})
-        return oracle_restart(log)
+        log = run_restart(c13.Runner(env), {"events": case["events"], "window": case.get("window")})
+        return "" if log is None else oracle_restart(log)
     aiocoap = env.import_repo(shims=True)
     import aiocoap.oscore as oscore
     import oscore_util
@@ -698,6 +934,8 @@ def replay(env, case):
             r = run_window(oscore, case["size"], case["index"], case["bitfield"], case["ops"])
         except Exception as e:
             return f"ReplayWindow raised {type(e).__name__}"
+        if r == "size-refused":
+            return ""
         toks = r.split(" |")[0].split()
         return oracle_window(case["size"], case["index"], case["bitfield"], case["ops"], toks)[0]
     win = tuple(case["win"]) if case["win"] is not None else None
